@@ -89,6 +89,8 @@ class FrameSetup(object):
             sums.update(extra_summaries)
         E = engine_cls(self.prog, port=self.port, summaries=sums, entry_name=name)
         E.loop_info = {}
+        mo = self.soff('mapper_real')
+        E.tracked_preds = {'M': [(('in', 'st', mo + i), ('in', 'frame', 24 + i)) for i in range(6)]}
 
         def setup(I, st):
             a = self.args(I, st)
